@@ -157,13 +157,15 @@ static void ledger_free(void *p) {
     }
     E.err_foreign_free++;               /* unknown or repeated pointer: do not touch it */
 }
-static void *dep_alloc(size_t n) { E.n_alloc++; E.n_alloc_tab[0]++; logc('A'); return ledger_alloc(n); }
+/* errno is unspecified after a successful allocation; the harness allocators leave the least convenient value (the library may not read it:
+ * the only failure signal of an injected allocator is a NULL result) */
+static void *dep_alloc(size_t n) { E.n_alloc++; E.n_alloc_tab[0]++; logc('A'); void *p = ledger_alloc(n); errno = ENOMEM; return p; }
 static void dep_free(void *p) { E.n_free++; E.n_free_tab[0]++; logc('F'); ledger_free(p); }
 /* table B has its own entry points (same ledger): which table's functions were called is observable */
-static void *dep_alloc_b(size_t n) { E.n_alloc++; E.n_alloc_tab[1]++; logc('A'); return ledger_alloc(n); }
+static void *dep_alloc_b(size_t n) { E.n_alloc++; E.n_alloc_tab[1]++; logc('A'); void *p = ledger_alloc(n); errno = ENOMEM; return p; }
 static void dep_free_b(void *p) { E.n_free++; E.n_free_tab[1]++; logc('F'); ledger_free(p); }
 /* the library's references to libc malloc/free/time are renamed to these by the build */
-void *ps_libc_malloc(size_t n) { E.n_libc_malloc++; logc('m'); return ledger_alloc(n); }
+void *ps_libc_malloc(size_t n) { E.n_libc_malloc++; logc('m'); void *p = ledger_alloc(n); errno = ENOMEM; return p; }
 void ps_libc_free(void *p) { E.n_libc_free++; logc('f'); ledger_free(p); }
 time_t E_libc_time_value = (time_t)1700000000;      /* what the C library's clock reads (the library's reference to time() is renamed to this function) */
 time_t ps_libc_time(time_t *t) { E.n_libc_time++; logc('t'); if (t) *t = E_libc_time_value; return E_libc_time_value; }
